@@ -33,7 +33,11 @@
 /* ------------------------------------------------------------------ shim */
 static int g_terminated;
 static int g_term_cause = -1;
-static int peer_ctrl = -1, peer_data = -1;
+/* two transceiver instances can be open side by side ("inst 0|1" selects the one the following requests talk to) */
+static int cur;
+static int g_peer_ctrl[2] = { -1, -1 }, g_peer_data[2] = { -1, -1 };
+#define peer_ctrl (g_peer_ctrl[cur])
+#define peer_data (g_peer_data[cur])
 static uint16_t g_base_port = 6700;
 
 void *verif_talloc_zero(size_t size) { return calloc(1, size ? size : 1); }
@@ -53,7 +57,7 @@ int osmo_sock_init2_ofd(struct osmo_fd *ofd, int family, int type, int proto,
 	fcntl(sv[1], F_SETFL, O_NONBLOCK);
 	ofd->fd = sv[0];
 	ofd->when = OSMO_FD_READ;
-	if (remote_port == g_base_port + 1) {
+	if ((remote_port - g_base_port) & 1) {
 		if (peer_ctrl >= 0) close(peer_ctrl);
 		peer_ctrl = sv[1];
 	} else {
@@ -132,6 +136,8 @@ int trxcon_phyif_handle_burst_ind(void *priv, const struct trxcon_phyif_burst_in
 			acc += bi->burst[i];
 		return 0;
 	}
+	if ((uintptr_t)priv != (uintptr_t)(0x1234 + cur))
+		printf("WRONGINST %p\n", priv);
 	printf("BURST_IND %u %u %d %d %u ", bi->fn, bi->tn, bi->rssi, bi->toa256, bi->burst_len);
 	for (i = 0; i < bi->burst_len; i++)
 		printf("%02x", (uint8_t)bi->burst[i]);
@@ -157,13 +163,14 @@ int trxcon_phyif_handle_rsp(void *priv, const struct trxcon_phyif_rsp *rsp)
 }
 
 /* ---------------------------------------------------------------- driver */
-static struct trx_instance *trx;
+static struct trx_instance *g_trx[2];
+#define trx (g_trx[cur])
 
 static void do_open(void)
 {
 	struct trx_if_params p = {
 		.local_host = "127.0.0.1", .remote_host = "127.0.0.1", .base_port = g_base_port,
-		.fn_advance = 3, .instance = 0, .parent_fi = NULL, .parent_term_event = 0, .priv = (void *)0x1234,
+		.fn_advance = 3, .instance = cur, .parent_fi = NULL, .parent_term_event = 0, .priv = (void *)(uintptr_t)(0x1234 + cur),
 	};
 	if (trx) {
 		trx_if_close(trx);
@@ -369,6 +376,10 @@ int main(void)
 			after_call();
 			printf("RC %d\n", rc);
 			state_line();
+		} else if (!strncmp(line, "inst ", 5)) {
+			cur = atoi(line + 5) & 1;
+			if (!trx) do_open();
+			printf("INST %d\n", cur);
 		} else if (!strncmp(line, "burst ", 6)) {
 			char *q = line + 6;
 			struct trxcon_phyif_burst_req br;
